@@ -165,7 +165,9 @@ def run(spec, ctx):
         feats = None
         if use_abuf:
             feats = [f for f in WC.FEATS if f != 'unconn_out' and rng.random() < 0.25]
-        case = WC.gen_case(rng, feats=feats, xor_rich=True if i % 2 else None, caps=4 if i % 4 == 1 else None)
+        case = WC.gen_case(rng, feats=feats, xor_rich=True if i % 2 else None, caps=4 if (i % 4 == 1 and i != 1) else None, large=(i == 1))
+        if i == 1:
+            ctx.count('large_cases')
         case['use_abuf'] = use_abuf
         check_case(case, ctx)
 
